@@ -85,7 +85,7 @@ def run(ctx):
     for h in hs:
         prev = None
         for q, entry in h:
-            r, t = parsing.impl_parse(q, entry)
+            r, t = parsing.impl_parse(q, entry, history=False)
             flat.append((q, entry, r, prev))
             prev = q
             if t is not None and ctx.rng.random() < 0.5:
@@ -120,8 +120,8 @@ def replay(ctx, rep):
     if q is None:
         return
     if inp.get("previous") is not None:
-        parsing.impl_parse(inp["previous"], inp.get("entry", "module"))
-    r, _ = parsing.impl_parse(q, inp.get("entry", "module"))
+        parsing.impl_parse(inp["previous"], inp.get("entry", "module"), history=False)
+    r, _ = parsing.impl_parse(q, inp.get("entry", "module"), history=False)
     ref = fresh_results([q])[0]
     if ("err" in r and r["err"][0] not in ALLOWED) or r != ref:
         ctx.fail("outcome differs from a fresh parse or is not a ParseError", {"q": q, "got": r, "fresh": ref})
